@@ -38,7 +38,7 @@ var trustedBase = map[string]string{
 }
 
 // pure std-lib packages: functions that cannot touch jennifer's heap or the ghost state
-var pureStdPkgs = map[string]bool{"strings": true, "strconv": true, "unicode": true, "unicode/utf8": true, "math": true, "bytes": true,
+var pureStdPkgs = map[string]bool{"strings": true, "strconv": true, "unicode": true, "unicode/utf8": true, "math": true, "bytes": false,
 	"sort": false, "fmt": false, "errors": true, "path": true, "path/filepath": true, "regexp": true, "math/bits": true}
 
 // opaqueCall models a call the engine has no contract for: results are unconstrained; functions of
@@ -258,6 +258,11 @@ func (u *Unit) execExtern(p *Path, x *ssa.Call, name string, args []*Term) {
 		u.setResults(p, x, []*Term{n, err})
 	case "(*bytes.Buffer).Write":
 		u.requireNonNil(p, x, args[0], "Write on nil *bytes.Buffer")
+		n, err := u.writerWrite(p, args[0], args[1])
+		p.assume(Eq(err, IntLit(0)))
+		u.setResults(p, x, []*Term{n, err})
+	case "(*bytes.Buffer).WriteString":
+		u.requireNonNil(p, x, args[0], "WriteString on nil *bytes.Buffer")
 		n, err := u.writerWrite(p, args[0], args[1])
 		p.assume(Eq(err, IntLit(0)))
 		u.setResults(p, x, []*Term{n, err})
